@@ -457,14 +457,16 @@ class Bin(Factory, Container):
 
         else:
             q = np.array(q, dtype=np.float64)
-            belowhigh = q < self.high
+            inrange = (q >= self.low) & (q < self.high)
             np.subtract(q, self.low, q)
             np.multiply(q, self.num, q)
             np.divide(q, self.high - self.low, q)
             np.floor(q, q)
             q = np.array(q, dtype=int)
-            # as in bin(): rounding can give the index num to a datum just below high
-            q[belowhigh & (q >= self.num)] = self.num - 1
+            # as in bin(): rounding can give the index num to a datum just below high; and a datum just below low
+            # (already counted as underflow) must not round to index 0
+            q[inrange & (q >= self.num)] = self.num - 1
+            q[~inrange] = -1
 
             for index, value in enumerate(self.values):
                 np.not_equal(q, index, selection)
